@@ -363,7 +363,41 @@ def tr_is_subtype(tree, F):
             raise Skip(f'{W}: {what} is not `{elem} in {coll}`')
         return True
 
-    # T5: the Union branch
+    def sub_union_stmt(u, type_args_name):
+        """`if <python_sub is a Union>: sub_type_args = get_type_arguments(cls=sub_type); return all(<elt> for x in sub_type_args)`:
+        (typing?, pep604?, quantifier is all?, element is `_is_subtype(sub_type=x, super_type=super_type)` instead of `x in type_args`)"""
+        if not (isinstance(u, ast.If) and not u.orelse and len(u.body) == 2):
+            raise Skip(f'{W}: expected the Union-sub-type test')
+        ty, pep = union_test(u.test, PSUB)
+        a0, r0 = u.body
+        if not (isinstance(a0, ast.Assign) and is_name(a0.targets[0]) and call_of(a0.value, 'get_type_arguments') and is_name(the_arg(a0.value, 'cls', 0), SUB)
+                and isinstance(r0, ast.Return) and isinstance(r0.value, ast.Call) and is_name(r0.value.func) and r0.value.func.id in ('all', 'any')
+                and len(r0.value.args) == 1 and isinstance(r0.value.args[0], (ast.ListComp, ast.GeneratorExp)) and len(r0.value.args[0].generators) == 1):
+            raise Skip(f'{W}: Union sub type is not `return all(… for x in sub_type_args)`')
+        comp = r0.value.args[0]
+        g = comp.generators[0]
+        if not (is_name(g.target) and is_name(g.iter, a0.targets[0].id) and not g.ifs):
+            raise Skip(f'{W}: the Union-sub-type comprehension does not run over the sub type arguments')
+        x = g.target.id
+        if call_of(comp.elt, '_is_subtype'):
+            if subtype_direction(comp.elt, lambda n: is_name(n, x), lambda n: is_name(n, SUP), W + ' Union sub type') is not True:
+                raise Skip(f'{W}: Union sub type: members are not tested as sub types of {SUP}')
+            by_members = True
+        else:
+            if type_args_name is None:
+                raise Skip(f'{W}: Union sub type outside the Union branch tests membership')
+            membership(comp.elt, x, type_args_name, 'Union-vs-Union element')
+            by_members = False
+        return ty, pep, r0.value.func.id == 'all', by_members
+
+    # T5a (new shape): the Union-sub-type test as a statement of its own, before the Union-super-type branch
+    F['subUnionHoisted'] = False
+    s = st[i]
+    if isinstance(s, ast.If) and not s.orelse and PSUB in ast.dump(s.test) and PSUP not in ast.dump(s.test):
+        F['subUnionTyping'], F['subUnionPep604'], F['unionSubQuantAll'], F['subUnionByMembers'] = sub_union_stmt(s, None)
+        F['subUnionHoisted'] = True
+        i += 1
+    # T5: the Union-super-type branch
     s = st[i]
     if not (isinstance(s, ast.If) and not s.orelse):
         raise Skip(f'{W}: expected the Union branch')
@@ -373,22 +407,12 @@ def tr_is_subtype(tree, F):
             and is_name(the_arg(b[0].value, 'cls', 0), SUP)):
         raise Skip(f'{W}: Union branch does not start with type_args = get_type_arguments(cls={SUP})')
     TA = b[0].targets[0].id
-    u = b[1] if len(b) > 1 else None
-    if not (isinstance(u, ast.If) and not u.orelse and len(u.body) == 2):
-        raise Skip(f'{W}: expected the Union-vs-Union test')
-    F['subUnionTyping'], F['subUnionPep604'] = union_test(u.test, PSUB)
-    a0, r0 = u.body
-    if not (isinstance(a0, ast.Assign) and is_name(a0.targets[0]) and call_of(a0.value, 'get_type_arguments') and is_name(the_arg(a0.value, 'cls', 0), SUB)
-            and isinstance(r0, ast.Return) and isinstance(r0.value, ast.Call) and is_name(r0.value.func) and r0.value.func.id in ('all', 'any')
-            and len(r0.value.args) == 1 and isinstance(r0.value.args[0], (ast.ListComp, ast.GeneratorExp)) and len(r0.value.args[0].generators) == 1):
-        raise Skip(f'{W}: Union-vs-Union is not `return all([x in type_args for x in sub_type_args])`')
-    comp = r0.value.args[0]
-    g = comp.generators[0]
-    if not (is_name(g.target) and is_name(g.iter, a0.targets[0].id) and not g.ifs):
-        raise Skip(f'{W}: Union-vs-Union comprehension does not run over the sub type arguments')
-    F['unionSubQuantAll'] = r0.value.func.id == 'all'
-    exact = membership(comp.elt, g.target.id, TA, 'Union-vs-Union element')
-    rest = b[2:]
+    rest = b[1:]
+    if not F['subUnionHoisted']:
+        if not rest:
+            raise Skip(f'{W}: expected the Union-vs-Union test')
+        F['subUnionTyping'], F['subUnionPep604'], F['unionSubQuantAll'], F['subUnionByMembers'] = sub_union_stmt(rest[0], TA)
+        rest = rest[1:]
     if len(rest) == 2:          # the Protocol shortcut: `if any([type(ta) == _ProtocolMeta for ta in type_args]): return True`
         p = rest[0]
         if not (isinstance(p, ast.If) and not p.orelse and '_ProtocolMeta' in ast.dump(p.test)
@@ -396,8 +420,20 @@ def tr_is_subtype(tree, F):
             raise Skip(f'{W}: unexpected statement in the Union branch')
         rest = rest[1:]
     if len(rest) != 1 or not isinstance(rest[0], ast.Return):
-        raise Skip(f'{W}: Union branch does not end with `return sub_type in type_args`')
-    F['unionMemberExact'] = exact and membership(rest[0].value, SUB, TA, 'last statement of the Union branch')
+        raise Skip(f'{W}: Union branch does not end with a return')
+    last = rest[0].value
+    if isinstance(last, ast.Call) and is_name(last.func, 'any') and len(last.args) == 1 and isinstance(last.args[0], (ast.GeneratorExp, ast.ListComp)) \
+            and len(last.args[0].generators) == 1:
+        # new shape: `return any(_is_subtype(sub_type=sub_type, super_type=ta, …) for ta in type_args)`
+        g = last.args[0].generators[0]
+        if not (is_name(g.target) and is_name(g.iter, TA) and not g.ifs
+                and subtype_direction(last.args[0].elt, lambda n: is_name(n, SUB), lambda n: is_name(n, g.target.id), W + ' Union super type') is True):
+            raise Skip(f'{W}: Union branch does not end with `return any(_is_subtype(sub_type={SUB}, super_type=ta) for ta in {TA})`')
+        F['unionSuperBySubtype'] = True
+    else:
+        membership(last, SUB, TA, 'last statement of the Union branch')
+        F['unionSuperBySubtype'] = False
+    F['unionMemberExact'] = not F['unionSuperBySubtype'] and not F['subUnionByMembers']
     i += 1
 
     def issubclass_order(n, what):
@@ -447,6 +483,13 @@ def tr_is_subtype(tree, F):
         i += 1
     if set(an) != {SUB, SUP}: raise Skip(f'{W}: sub_args / super_args are not both computed')
     SA, PA = an[SUB], an[SUP]
+    # T9a (new shape): if not super_args: return <b>
+    F['rawSuperShortcut'], F['rawSuperResult'] = False, True
+    s = st[i]
+    if isinstance(s, ast.If) and not s.orelse and is_not(s.test) and is_name(s.test.operand, PA):
+        F['rawSuperShortcut'] = True
+        F['rawSuperResult'] = const_bool(single_return(s.body, W + ' raw super type'), W + ' raw super type')
+        i += 1
     # T10: if len(sub_args) != len(super_args) and Ellipsis not in sub_args + super_args: return <b>
     s = st[i]
     if not (isinstance(s, ast.If) and not s.orelse and isinstance(s.test, ast.BoolOp) and isinstance(s.test.op, ast.And) and len(s.test.values) == 2):
@@ -500,8 +543,12 @@ def tr_get_class(tree, F):
                 and len(e.test.values) == 2):
             raise Skip(f'{W}: unexpected elif')
         m, o = e.test.values
+        def origin_read(n):
+            """`annotation.__origin__` or `getattr(annotation, '__origin__', None)` (the same for every annotation that has the attribute)"""
+            return dotted(n) == f'{A}.__origin__' or (call_of(n, 'getattr') and len(n.args) == 3 and is_name(n.args[0], A)
+                                                      and isinstance(n.args[1], ast.Constant) and n.args[1].value == '__origin__' and is_none(n.args[2]))
         if not (simple_compare(m) and isinstance(m.ops[0], ast.Eq) and dotted(m.left) == f'{A}.__module__' and isinstance(m.comparators[0], ast.Constant)
-                and m.comparators[0].value == 'typing' and simple_compare(o) and isinstance(o.ops[0], ast.IsNot) and dotted(o.left) == f'{A}.__origin__'
+                and m.comparators[0].value == 'typing' and simple_compare(o) and isinstance(o.ops[0], ast.IsNot) and origin_read(o.left)
                 and is_none(o.comparators[0]) and dotted(single_return(e.body, W)) == f'{A}.__origin__'):
             raise Skip(f'{W}: elif is not the typing-origin test')
         F['typingOriginUsed'] = True
@@ -543,6 +590,31 @@ def tr_way_in(tree, F):
                 if isinstance(r, ast.Return) and isinstance(r.value, ast.Subscript) and call_of(r.value.slice, 'tuple') and is_name(r.value.value):
                     resub = True
     F['convertResubscriptsFlatArgs'] = bool(flat and resub)
+    # new shape: `if origin is collections.abc.Callable:` before the generic conversion of the arguments
+    F['convertAbcCallable'], F['convertAbcBareTolerated'] = False, False
+    body = body_of(fn)
+    generic_at = next((k for k, n in enumerate(body) if isinstance(n, ast.Assign) and isinstance(n.value, ast.ListComp)
+                       and call_of(n.value.elt, 'convert_to_typing_types')), None)
+    for k, n in enumerate(body):
+        if isinstance(n, ast.If) and simple_compare(n.test) and isinstance(n.test.ops[0], ast.Is) \
+                and dotted(n.test.comparators[0]) == 'collections.abc.Callable' and (generic_at is None or k < generic_at):
+            rets = [r for r in ast.walk(n) if isinstance(r, ast.Return)]
+            comps = [c for c in ast.walk(n) if isinstance(c, ast.ListComp) and dotted(c.generators[0].iter) == f'{X}.__args__']
+            # every path returns typing.Callable[…]; the last return rebuilds the parameter list from all but the last flat argument
+            ok = bool(rets) and all(isinstance(r.value, ast.Subscript) and dotted(r.value.value) == 'typing.Callable' for r in rets) and len(comps) == 1
+            if ok:
+                ok = isinstance(n.body[-1], ast.Return)
+            if ok:
+                sl = n.body[-1].value.slice
+                ok = isinstance(sl, ast.Tuple) and len(sl.elts) == 2 and isinstance(sl.elts[0], ast.Subscript) and isinstance(sl.elts[0].slice, ast.Slice) \
+                    and sl.elts[0].slice.lower is None and isinstance(sl.elts[0].slice.upper, ast.UnaryOp) and isinstance(sl.elts[1], ast.Subscript)
+            if not ok:
+                raise Skip('convert_to_typing_types: unexpected collections.abc.Callable branch')
+            F['convertAbcCallable'] = True
+            e = comps[0].elt
+            F['convertAbcBareTolerated'] = isinstance(e, ast.IfExp) and simple_compare(e.test) and isinstance(e.test.ops[0], ast.In) \
+                and isinstance(e.test.comparators[0], ast.Set) and {dotted(z) for z in e.test.comparators[0].elts} >= {'list', 'set', 'dict', 'frozenset', 'tuple', 'type'} \
+                and is_name(e.body, comps[0].generators[0].target.id) and call_of(e.orelse, 'convert_to_typing_types')
 
 
 # ------------------------------------------------------------------ output
@@ -620,6 +692,13 @@ def subUnionPep604 : Bool := {b('subUnionPep604')}
 def unionSubQuantAll : Bool := {b('unionSubQuantAll')}
 /-- membership is the `in` operator on the tuple of type arguments (both in the Union/Union case and in `sub_type in type_args`) -/
 def unionMemberExact : Bool := {b('unionMemberExact')}
+/-- Union super type: the branch ends with `return any(_is_subtype(sub_type=sub_type, super_type=ta, …) for ta in type_args)` (true)
+    or with `return sub_type in type_args` (false) -/
+def unionSuperBySubtype : Bool := {b('unionSuperBySubtype')}
+/-- Union sub type: `all(_is_subtype(sub_type=x, super_type=super_type, …) for x in sub_type_args)` (true) or `all([x in type_args …])` (false) -/
+def subUnionByMembers : Bool := {b('subUnionByMembers')}
+/-- the Union-sub-type test is a statement of its own before the Union-super-type branch (true) or nested inside it (false) -/
+def subUnionHoisted : Bool := {b('subUnionHoisted')}
 /-- non-generic sub type: `issubclass(python_sub, python_super)` inside `try … except TypeError: … return <nonGenericCatchResult>` -/
 def nonGenericSubFirst : Bool := {b('nonGenericSubFirst')}
 def nonGenericCatchesTypeError : Bool := {b('nonGenericCatchesTypeError')}
@@ -631,6 +710,9 @@ def genericOriginFailResult : Bool := {b('genericOriginFailResult')}
 /-- `len(sub_args) != len(super_args) and Ellipsis not in sub_args + super_args` → `return <argLenMismatchResult>` -/
 def argLenMismatch (nSub nSuper : Nat) : Bool := {F['argLenMismatch']}
 def argLenMismatchResult : Bool := {b('argLenMismatchResult')}
+/-- `if not super_args: return <rawSuperResult>` stands before the argument-count test (plain class / unparametrised generic as super type) -/
+def rawSuperShortcut : Bool := {b('rawSuperShortcut')}
+def rawSuperResult : Bool := {b('rawSuperResult')}
 /-- `return all(_is_subtype(sub_type=sub_arg, super_type=super_arg, …) for sub_arg, super_arg in zip(sub_args, super_args))` -/
 def argsQuantAll : Bool := {b('argsQuantAll')}
 def argsLazy : Bool := {b('argsLazy')}
@@ -653,6 +735,10 @@ def checkTypeHandlers : List (List String × String) := {handlers}
 /-- `convert_to_typing_types`: a `types.GenericAlias` whose origin is not a builtin container is re-subscripted as
     `alias[tuple(args)]` with `args` taken from the flat `x.__args__` -/
 def convertResubscriptsFlatArgs : Bool := {b('convertResubscriptsFlatArgs')}
+/-- `if origin is collections.abc.Callable:` stands before the generic conversion of the arguments and rebuilds
+    `typing.Callable[flat[:-1], flat[-1]]` (every arity); its argument conversion leaves bare `list` / `dict` / … alone -/
+def convertAbcCallable : Bool := {b('convertAbcCallable')}
+def convertAbcBareTolerated : Bool := {b('convertAbcBareTolerated')}
 
 end PedVerif.Gen.Callable
 '''
